@@ -130,7 +130,19 @@ def main():
     except Exception:
         pass
     for r in results:
+        if r.get("confirmed") is None and old.get(r["id"], {}).get("confirmed"):
+            r["confirmed"] = old[r["id"]]["confirmed"]          # a --no-confirm re-run keeps the earlier confirmation
         old[r["id"]] = r
+        # the confirmation is recorded with the seeded change itself
+        mp = os.path.join(SEEDED, r["id"], "meta.json")
+        try:
+            m = json.load(open(mp))
+            if r.get("confirmed") and m.get("confirmed_here") != r["confirmed"]:
+                m["confirmed_here"] = r["confirmed"]
+            m["detected_by"] = r.get("detected_by")
+            json.dump(m, open(mp, "w"), indent=1)
+        except Exception:
+            pass
     json.dump([old[k] for k in sorted(old)], open(out, "w"), indent=1)
 
 
